@@ -609,6 +609,9 @@ func (c *Ctx) c04Oracle() error {
 				fmt.Fprintf(&sk, "func res%d(p %s) %s { return %d }\nfunc rcall%d() %s { var z %s; r := res%d(z); return r }\n", pi, P, T, K, pi, T, P, pi)
 				fmt.Fprintf(&sk, "func resb%d(p %s, q %s) (%s, %s) { return %d, %d }\nfunc rbcall%d() %s { var z %s; a, b := resb%d(z, z); _ = a; return b }\n", pi, P, P, T, T, K, K, pi, T, P, pi)
 			}
+			// implicit repetition in a typed constant group repeats the type too, also for a compound expression
+			fmt.Fprintf(&sk, "func cgrp1() %s { const ( CA %s = %d + iota - iota; CB; CC ); v := CC; v += 0; return v }\nfunc cgrp2() %s { const ( DA, DB %s = iota * 0 + %d, %d; DC, DD ); v := DD; return v }\nconst ( GA %s = (%d); GB; GC )\nfunc cgrp3() %s { v := GC; return v }\nfunc cgrp4() %s { const ( EA %s = %d; EB ); return EB }\n",
+				T, T, K, T, T, K, K, T, K, T, T, T, K)
 			// the zero value read at an absent key has the ELEMENT type, whatever the key type is
 			for pi, P := range others {
 				fmt.Fprintf(&sk, "func mab%d() %s { m := map[%s]%s{}; var z %s; x := m[z]; x += %d; return x }\nfunc mac%d() %s { m := map[%s]%s{}; var z %s; m[z] += %d; return m[z] }\nfunc mad%d() %s { m := make(map[%s]%s); var z %s; v, ok := m[z]; _ = ok; v += %d; return v }\n",
@@ -619,6 +622,9 @@ func (c *Ctx) c04Oracle() error {
 				for _, fn := range []string{"mab", "mac", "mad"} {
 					check("absent-key-zero", fmt.Sprintf("%s: map[%s]%s{} read at an absent key, then += %d", fn, P, T, K), s.call(fmt.Sprintf("%s%d", fn, pi)), fmt.Sprintf("%d:%s", K, T))
 				}
+			}
+			for _, fn := range []string{"cgrp1", "cgrp2", "cgrp3", "cgrp4"} {
+				check("typed-const-group", fmt.Sprintf("%s: a repeated spec of a const group typed %s with value %d", fn, T, K), s.call(fn), fmt.Sprintf("%d:%s", K, T))
 			}
 			for _, fn := range []string{"vcall", "vmcall"} {
 				check("variadic-store", fmt.Sprintf("%s: %d among the extra arguments of a ...%s parameter", fn, K, T), s.call(fn), fmt.Sprintf("%d:%s", K, T))
